@@ -236,8 +236,14 @@ pub fn run_block(cfg: &Cfg, out: &mut Out, extra_after: usize) -> usize {
     });
     match res {
         Some((lines, n)) => {
+            let clean = lines.iter().all(|l| !l.contains("runaway"));
+            let first = out.n + 1; // line number of the first `next` event of this block (the first `none` is at first + n)
             for l in lines {
                 out.line(&l);
+            }
+            // the other consumption routes: for every fifth block (the small-scope family alone has thousands of blocks)
+            if clean && n <= 2500 && first % 5 == 0 {
+                routes(cfg, out, first, n);
             }
             n
         }
@@ -245,6 +251,100 @@ pub fn run_block(cfg: &Cfg, out: &mut Out, extra_after: usize) -> usize {
             out.line("{\"op\":\"panic\"}");
             0
         }
+    }
+}
+
+/// the same enumeration consumed through other Iterator routes (nth, skip, step_by, last, count, collect after size_hint), each
+/// on a fresh iterator of the configuration; every result is logged with the distance back to the `next` / `none` event of the
+/// plain run it must repeat
+fn routes(cfg: &Cfg, out: &mut Out, first: usize, n: usize) {
+    let some = |sd: &Showdown, how: &str, j: usize, out: &mut Out| {
+        let back = out.n + 1 - (first + j);
+        let body = next_json(sd).replacen("\"op\":\"next\"", &format!("\"op\":\"route\",\"how\":{},\"res\":\"some\",\"back\":{}", jstr(how), back), 1);
+        out.line(&body);
+    };
+    let none = |how: &str, out: &mut Out| {
+        let back = out.n + 1 - (first + n);
+        out.line(&format!("{{\"op\":\"route\",\"how\":{},\"res\":\"none\",\"back\":{}}}", jstr(how), back));
+    };
+    let other = |how: &str, res: &str, out: &mut Out| {
+        out.line(&format!("{{\"op\":\"route\",\"how\":{},\"res\":\"{}\",\"back\":1}}", jstr(how), res));
+    };
+    let mut ks: Vec<usize> = vec![0, 1, n / 2, n.saturating_sub(1), n, n + 3];
+    ks.dedup();
+    for k in ks {
+        let c = cfg.clone();
+        // nth(k), then the call after it
+        let r = guarded(move || {
+            let mut it = c.evaluator().into_iter();
+            let _ = it.size_hint();
+            let a = it.nth(k);
+            let b = it.next();
+            (a, b)
+        });
+        match r {
+            Some((a, b)) => {
+                match a {
+                    Some(sd) if k < n => some(&sd, &format!("nth({})", k), k, out),
+                    None if k >= n => none(&format!("nth({})", k), out),
+                    _ => other(&format!("nth({})", k), "wrong-end", out),
+                }
+                match b {
+                    Some(sd) if k + 1 < n => some(&sd, &format!("nth({}) then next", k), k + 1, out),
+                    None if k + 1 >= n => none(&format!("nth({}) then next", k), out),
+                    _ => other(&format!("nth({}) then next", k), "wrong-end", out),
+                }
+            }
+            None => other(&format!("nth({})", k), "panic", out),
+        }
+    }
+    // skip(k).next(), step_by(3), last(), count(), collect()
+    let k = n / 3 + 1;
+    let c = cfg.clone();
+    match guarded(move || c.evaluator().into_iter().skip(k).next()) {
+        Some(Some(sd)) if k < n => some(&sd, &format!("skip({})", k), k, out),
+        Some(None) if k >= n => none(&format!("skip({})", k), out),
+        Some(_) => other(&format!("skip({})", k), "wrong-end", out),
+        None => other(&format!("skip({})", k), "panic", out),
+    }
+    let c = cfg.clone();
+    match guarded(move || c.evaluator().into_iter().step_by(3).take(4).collect::<Vec<_>>()) {
+        Some(v) => {
+            if v.len() != ((n + 2) / 3).min(4) {
+                other("step_by(3)", "wrong-end", out);
+            }
+            for (i, sd) in v.iter().enumerate() {
+                if 3 * i < n {
+                    some(sd, "step_by(3)", 3 * i, out);
+                }
+            }
+        }
+        None => other("step_by(3)", "panic", out),
+    }
+    let c = cfg.clone();
+    match guarded(move || c.evaluator().into_iter().last()) {
+        Some(Some(sd)) if n > 0 => some(&sd, "last()", n - 1, out),
+        Some(None) if n == 0 => none("last()", out),
+        Some(_) => other("last()", "wrong-end", out),
+        None => other("last()", "panic", out),
+    }
+    let c = cfg.clone();
+    match guarded(move || c.evaluator().into_iter().count()) {
+        Some(m) if m == n => none("count()", out),
+        Some(_) => other("count()", "wrong-end", out),
+        None => other("count()", "panic", out),
+    }
+    let c = cfg.clone();
+    match guarded(move || c.evaluator().into_iter().collect::<Vec<_>>()) {
+        Some(v) => {
+            if v.len() != n {
+                other("collect()", "wrong-end", out);
+            } else if n > 0 {
+                some(&v[n - 1], "collect()", n - 1, out);
+                some(&v[n / 2], "collect()", n / 2, out);
+            }
+        }
+        None => other("collect()", "panic", out),
     }
 }
 
@@ -524,6 +624,7 @@ pub fn drain(args: &Args, mut out: Out) -> usize {
             let mut n = 0u64;
             let cap = cfg.max_deals() as u64;
             let mut it = cfg.evaluator().into_iter();
+            let _ = it.size_hint();
             while let Some(_sd) = it.next() {
                 n += 1;
                 if n > cap {
@@ -532,6 +633,16 @@ pub fn drain(args: &Args, mut out: Out) -> usize {
             }
             // exhausted must be sticky
             let again = it.next().is_none() && it.next().is_none();
+            let _ = it.size_hint();
+            // the same enumeration through the adaptors a user would reach for: collect() (which asks size_hint() first),
+            // count(), last() - on fresh iterators, when the run is short enough to hold in memory
+            if n <= 100_000 {
+                // (what they return is C02's business - see the route events there; here they only have to come back)
+                let v: Vec<_> = cfg.evaluator().into_iter().collect();
+                let c = cfg.evaluator().into_iter().count();
+                let l = cfg.evaluator().into_iter().last().is_some();
+                std::hint::black_box((v.len(), c, l));
+            }
             (n, again)
         })
         .unwrap();
